@@ -363,6 +363,8 @@ pub struct Model {
     pub next_ann: usize,
     /// ids of removed items (kind, id) — used to probe that they stop resolving
     pub dead_ids: BTreeSet<(char, String)>,
+    /// the store was configured with strip_temp_ids(false): `!A3` is an ordinary string, not a temporary id
+    pub no_temp_ids: bool,
 }
 
 /// what the model predicts for an operation
@@ -405,21 +407,21 @@ impl Model {
 
     pub fn res(&self, r: &Ref) -> Option<usize> {
         match r {
-            Ref::Id(id) => temp_handle('R', id).and_then(|h| self.resources.get(&h)).or_else(|| self.resources.values().find(|x| &x.id == id)).map(|x| x.handle),
+            Ref::Id(id) => temp_handle('R', id).filter(|_| !self.no_temp_ids).and_then(|h| self.resources.get(&h)).or_else(|| self.resources.values().find(|x| &x.id == id)).map(|x| x.handle),
             Ref::Handle(h) => self.resources.get(h).map(|x| x.handle),
             Ref::None => None,
         }
     }
     pub fn set(&self, r: &Ref) -> Option<usize> {
         match r {
-            Ref::Id(id) => temp_handle('S', id).and_then(|h| self.sets.get(&h)).or_else(|| self.sets.values().find(|x| &x.id == id)).map(|x| x.handle),
+            Ref::Id(id) => temp_handle('S', id).filter(|_| !self.no_temp_ids).and_then(|h| self.sets.get(&h)).or_else(|| self.sets.values().find(|x| &x.id == id)).map(|x| x.handle),
             Ref::Handle(h) => self.sets.get(h).map(|x| x.handle),
             Ref::None => None,
         }
     }
     pub fn ann(&self, r: &Ref) -> Option<usize> {
         match r {
-            Ref::Id(id) => temp_handle('A', id)
+            Ref::Id(id) => temp_handle('A', id).filter(|_| !self.no_temp_ids)
                 .and_then(|h| self.anns.get(&h))
                 .or_else(|| self.anns.values().find(|x| x.id.as_deref() == Some(id.as_str())))
                 .map(|x| x.handle),
@@ -430,7 +432,7 @@ impl Model {
     pub fn key(&self, set: usize, r: &Ref) -> Option<usize> {
         let s = self.sets.get(&set)?;
         match r {
-            Ref::Id(id) => temp_handle('K', id).and_then(|h| s.keys.get(&h)).or_else(|| s.keys.values().find(|x| &x.id == id)).map(|x| x.handle),
+            Ref::Id(id) => temp_handle('K', id).filter(|_| !self.no_temp_ids).and_then(|h| s.keys.get(&h)).or_else(|| s.keys.values().find(|x| &x.id == id)).map(|x| x.handle),
             Ref::Handle(h) => s.keys.get(h).map(|x| x.handle),
             Ref::None => None,
         }
@@ -438,7 +440,7 @@ impl Model {
     pub fn data(&self, set: usize, r: &Ref) -> Option<usize> {
         let s = self.sets.get(&set)?;
         match r {
-            Ref::Id(id) => temp_handle('D', id)
+            Ref::Id(id) => temp_handle('D', id).filter(|_| !self.no_temp_ids)
                 .and_then(|h| s.data.get(&h))
                 .or_else(|| s.data.values().find(|x| x.id.as_deref() == Some(id.as_str())))
                 .map(|x| x.handle),
